@@ -801,23 +801,6 @@ def spec_servername__ParseAndValidateServerName : List String := [
   "return"
 ]
 
-def spec_servername__isDNSNameChar : List String := [
-  "func func(r rune) bool",
-  "if r >= 'A' && r <= 'Z' {",
-  "return true",
-  "}",
-  "if r >= 'a' && r <= 'z' {",
-  "return true",
-  "}",
-  "if r >= '0' && r <= '9' {",
-  "return true",
-  "}",
-  "if r == '-' || r == '.' {",
-  "return true",
-  "}",
-  "return false"
-]
-
 def spec_servername__splitServerName : List String := [
   "func func(serverName ServerName) (string, int)",
   "nameStr := string(serverName)",
@@ -907,6 +890,6 @@ def spec_userid_type_UserID : List String := [
   "type UserID struct { raw string local string domain string }"
 ]
 
-def functions : List String := ["eventV2.go:.CheckFields", "event.go:EventValidationError.Error", "event.go:.SplitID", "event.go:.checkID", "event.go:.checkRoomIDField", "event.go:.checkUntrustedEventJSON", "event.go:.duplicateJSONKey", "event.go:.jsonFieldNames", "event_builder.go:EventBuilder.AddAuthEvents", "event_builder.go:EventBuilder.Build", "event_builder.go:EventBuilder.SetContent", "event_builder.go:EventBuilder.SetUnsigned", "event_builder.go:.eventHashFromEventID", "event_builder.go:.eventReferenceFromEventID", "event_builder.go:.eventReferencesFrom", "event_builder.go:.toEventReference", "event_builder.go:type EventBuilder", "event.go:jsonWalk.duplicateName", "event.go:type EventValidationError", "event.go:type eventFields", "event.go:type jsonWalk", "eventversion.go:RoomVersionImpl.CheckCanonicalJSON", "eventversion.go:RoomVersionImpl.CheckCreateEvent", "eventversion.go:RoomVersionImpl.CheckKnockingAllowed", "eventversion.go:RoomVersionImpl.CheckPowerLevelEvent", "eventversion.go:RoomVersionImpl.CheckRestrictedJoin", "eventversion.go:RoomVersionImpl.CheckRestrictedJoinsAllowed", "eventversion.go:RoomVersionImpl.DomainlessRoomIDs", "eventversion.go:RoomVersionImpl.EventFormat", "eventversion.go:RoomVersionImpl.EventIDFormat", "eventversion.go:RoomVersionImpl.NewEventBuilder", "eventversion.go:RoomVersionImpl.NewEventBuilderFromProtoEvent", "eventversion.go:RoomVersionImpl.NewEventFromTrustedJSON", "eventversion.go:RoomVersionImpl.NewEventFromTrustedJSONWithEventID", "eventversion.go:RoomVersionImpl.NewEventFromUntrustedJSON", "eventversion.go:RoomVersionImpl.ParsePowerLevels", "eventversion.go:RoomVersionImpl.PrivilegedCreators", "eventversion.go:RoomVersionImpl.RedactEventJSON", "eventversion.go:RoomVersionImpl.RestrictedJoinServername", "eventversion.go:RoomVersionImpl.SignatureValidityCheck", "eventversion.go:RoomVersionImpl.Stable", "eventversion.go:RoomVersionImpl.StateResAlgorithm", "eventversion.go:RoomVersionImpl.Version", "eventversion.go:UnsupportedRoomVersionError.Error", "eventversion.go:.GetRoomVersion", "eventversion.go:.KnownRoomVersion", "eventversion.go:.MustGetRoomVersion", "eventversion.go:.NewEventFromHeaderedJSON", "eventversion.go:.RoomVersions", "eventversion.go:.SetRoomVersion", "eventversion.go:.StableRoomVersion", "eventversion.go:.StableRoomVersions", "eventversion.go:type EventFormat", "eventversion.go:type EventIDFormat", "eventversion.go:type IRoomVersion", "eventversion.go:type KnownRoomVersionFunc", "eventversion.go:type RoomVersion", "eventversion.go:type RoomVersionImpl", "eventversion.go:type StateResAlgorithm", "eventversion.go:type UnsupportedRoomVersionError", "spec/base64.go:Base64Bytes.Decode", "spec/base64.go:Base64Bytes.Encode", "spec/base64.go:Base64Bytes.MarshalJSON", "spec/base64.go:Base64Bytes.MarshalYAML", "spec/base64.go:Base64Bytes.Scan", "spec/base64.go:Base64Bytes.UnmarshalJSON", "spec/base64.go:Base64Bytes.UnmarshalYAML", "spec/base64.go:Base64Bytes.Value", "spec/base64.go:type Base64Bytes", "spec/roomid.go:RoomID.Domain", "spec/roomid.go:RoomID.OpaqueID", "spec/roomid.go:RoomID.String", "spec/roomid.go:.NewRoomID", "spec/roomid.go:.parseAndValidateRoomID", "spec/roomid.go:type RoomID", "spec/senderid.go:SenderID.IsPseudoID", "spec/senderid.go:SenderID.IsUserID", "spec/senderid.go:SenderID.RawBytes", "spec/senderid.go:SenderID.ToPseudoID", "spec/senderid.go:SenderID.ToUserID", "spec/senderid.go:.SenderIDFromPseudoIDKey", "spec/senderid.go:.SenderIDFromUserID", "spec/senderid.go:type CreateSenderID", "spec/senderid.go:type SenderID", "spec/senderid.go:type SenderIDForUser", "spec/senderid.go:type StoreSenderIDFromPublicID", "spec/senderid.go:type UserIDForSender", "spec/servername.go:.ParseAndValidateServerName", "spec/servername.go:.isDNSNameChar", "spec/servername.go:.splitServerName", "spec/servername.go:type ServerName", "spec/userid.go:UserID.Domain", "spec/userid.go:UserID.Local", "spec/userid.go:UserID.String", "spec/userid.go:.NewUserID", "spec/userid.go:.NewUserIDOrPanic", "spec/userid.go:.historicallyValidCharacters", "spec/userid.go:.parseAndValidateUserID", "spec/userid.go:type UserID"]
+def functions : List String := ["eventV2.go:.CheckFields", "event.go:EventValidationError.Error", "event.go:.SplitID", "event.go:.checkID", "event.go:.checkRoomIDField", "event.go:.checkUntrustedEventJSON", "event.go:.duplicateJSONKey", "event.go:.jsonFieldNames", "event_builder.go:EventBuilder.AddAuthEvents", "event_builder.go:EventBuilder.Build", "event_builder.go:EventBuilder.SetContent", "event_builder.go:EventBuilder.SetUnsigned", "event_builder.go:.eventHashFromEventID", "event_builder.go:.eventReferenceFromEventID", "event_builder.go:.eventReferencesFrom", "event_builder.go:.toEventReference", "event_builder.go:type EventBuilder", "event.go:jsonWalk.duplicateName", "event.go:type EventValidationError", "event.go:type eventFields", "event.go:type jsonWalk", "eventversion.go:RoomVersionImpl.CheckCanonicalJSON", "eventversion.go:RoomVersionImpl.CheckCreateEvent", "eventversion.go:RoomVersionImpl.CheckKnockingAllowed", "eventversion.go:RoomVersionImpl.CheckPowerLevelEvent", "eventversion.go:RoomVersionImpl.CheckRestrictedJoin", "eventversion.go:RoomVersionImpl.CheckRestrictedJoinsAllowed", "eventversion.go:RoomVersionImpl.DomainlessRoomIDs", "eventversion.go:RoomVersionImpl.EventFormat", "eventversion.go:RoomVersionImpl.EventIDFormat", "eventversion.go:RoomVersionImpl.NewEventBuilder", "eventversion.go:RoomVersionImpl.NewEventBuilderFromProtoEvent", "eventversion.go:RoomVersionImpl.NewEventFromTrustedJSON", "eventversion.go:RoomVersionImpl.NewEventFromTrustedJSONWithEventID", "eventversion.go:RoomVersionImpl.NewEventFromUntrustedJSON", "eventversion.go:RoomVersionImpl.ParsePowerLevels", "eventversion.go:RoomVersionImpl.PrivilegedCreators", "eventversion.go:RoomVersionImpl.RedactEventJSON", "eventversion.go:RoomVersionImpl.RestrictedJoinServername", "eventversion.go:RoomVersionImpl.SignatureValidityCheck", "eventversion.go:RoomVersionImpl.Stable", "eventversion.go:RoomVersionImpl.StateResAlgorithm", "eventversion.go:RoomVersionImpl.Version", "eventversion.go:UnsupportedRoomVersionError.Error", "eventversion.go:.GetRoomVersion", "eventversion.go:.KnownRoomVersion", "eventversion.go:.MustGetRoomVersion", "eventversion.go:.NewEventFromHeaderedJSON", "eventversion.go:.RoomVersions", "eventversion.go:.SetRoomVersion", "eventversion.go:.StableRoomVersion", "eventversion.go:.StableRoomVersions", "eventversion.go:type EventFormat", "eventversion.go:type EventIDFormat", "eventversion.go:type IRoomVersion", "eventversion.go:type KnownRoomVersionFunc", "eventversion.go:type RoomVersion", "eventversion.go:type RoomVersionImpl", "eventversion.go:type StateResAlgorithm", "eventversion.go:type UnsupportedRoomVersionError", "spec/base64.go:Base64Bytes.Decode", "spec/base64.go:Base64Bytes.Encode", "spec/base64.go:Base64Bytes.MarshalJSON", "spec/base64.go:Base64Bytes.MarshalYAML", "spec/base64.go:Base64Bytes.Scan", "spec/base64.go:Base64Bytes.UnmarshalJSON", "spec/base64.go:Base64Bytes.UnmarshalYAML", "spec/base64.go:Base64Bytes.Value", "spec/base64.go:type Base64Bytes", "spec/roomid.go:RoomID.Domain", "spec/roomid.go:RoomID.OpaqueID", "spec/roomid.go:RoomID.String", "spec/roomid.go:.NewRoomID", "spec/roomid.go:.parseAndValidateRoomID", "spec/roomid.go:type RoomID", "spec/senderid.go:SenderID.IsPseudoID", "spec/senderid.go:SenderID.IsUserID", "spec/senderid.go:SenderID.RawBytes", "spec/senderid.go:SenderID.ToPseudoID", "spec/senderid.go:SenderID.ToUserID", "spec/senderid.go:.SenderIDFromPseudoIDKey", "spec/senderid.go:.SenderIDFromUserID", "spec/senderid.go:type CreateSenderID", "spec/senderid.go:type SenderID", "spec/senderid.go:type SenderIDForUser", "spec/senderid.go:type StoreSenderIDFromPublicID", "spec/senderid.go:type UserIDForSender", "spec/servername.go:.ParseAndValidateServerName", "spec/servername.go:.splitServerName", "spec/servername.go:type ServerName", "spec/userid.go:UserID.Domain", "spec/userid.go:UserID.Local", "spec/userid.go:UserID.String", "spec/userid.go:.NewUserID", "spec/userid.go:.NewUserIDOrPanic", "spec/userid.go:.historicallyValidCharacters", "spec/userid.go:.parseAndValidateUserID", "spec/userid.go:type UserID"]
 
 end VPins.C17
